@@ -179,6 +179,8 @@ func parseCaddyfileCRLCDPConfig(d *caddyfile.Dispenser) (*config.CDPConfig, erro
 				return nil, d.ArgErr()
 			}
 			cdpConfig.CRLCDPStrict = b
+		default:
+			return nil, d.Errf("unknown subdirective for the cdp config in the revocation verifier: %s", d.Val())
 		}
 	}
 	return &cdpConfig, nil
